@@ -77,7 +77,7 @@ pub fn word_args(w: &Value, tree: &[Node], a: &mut Vec<String>) {
         "const" => a.push(if w["v"].as_bool().unwrap_or(true) { "-true".into() } else { "-false".into() }),
         "gopt" => {
             a.push(format!("-{}", w["o"].as_str().unwrap_or("depth")));
-            if w["o"] != "depth" {
+            if w["o"] != "depth" && w["o"] != "xdev" {
                 a.push(w["n"].as_u64().unwrap_or(0).to_string());
             }
         }
@@ -194,6 +194,9 @@ impl Prop for PSem {
                 let t = norm_ts((now.0 - age[0].as_i64().unwrap_or(0), now.1 - age[1].as_i64().unwrap_or(0)));
                 set_mtime(&dir.join(node_path(&tree, idx + 1)), t);
             }
+        }
+        if mount_failed() {
+            return json!({"nomount": true});
         }
         let attrs = measure(&dir, &tree);
         let cfg = &input["cfg"];
@@ -365,6 +368,35 @@ impl Prop for PSem {
                 },
             };
             words.push(w);
+        }
+        // now and then another file system is mounted on a directory and -xdev stands somewhere in the expression
+        // (described by FindSem, fixed by no listed property)
+        if rng.chance(1, 12) && !words.is_empty() {
+            let tr = arr(&v["tree"]);
+            let hl_involved: Vec<usize> = tr.iter().enumerate().filter(|(_, t)| t["hl"].as_u64().unwrap_or(0) > 0).flat_map(|(i, t)| [i + 1, t["hl"].as_u64().unwrap() as usize]).collect();
+            let below = |mut k: usize, d: usize| -> bool {
+                while k != 0 {
+                    if k == d {
+                        return true;
+                    }
+                    k = tr[k - 1]["parent"].as_u64().unwrap_or(0) as usize;
+                }
+                false
+            };
+            // no hard link may cross the boundary; the mounted file system starts out empty, so the harness creates
+            // the directory's children inside it - the directory must come before them in the tree (it does)
+            let cands: Vec<usize> = (1..=n).filter(|d| tr[d - 1]["kind"] == "d" && !hl_involved.iter().any(|h| below(*h, *d))).collect();
+            // preferably a directory that has something in it and is not itself a starting point
+            let roots_nodes: Vec<usize> = arr(&v["roots"]).iter().map(|r| r["node"].as_u64().unwrap_or(0) as usize).collect();
+            let good: Vec<usize> = cands.iter().copied().filter(|d| !roots_nodes.contains(d) && tr.iter().any(|t| t["parent"].as_u64() == Some(*d as u64))).collect();
+            let cands = if good.is_empty() { cands } else { good };
+            if !cands.is_empty() {
+                let d = *rng.pick(&cands);
+                v["tree"][d - 1]["mnt"] = json!(true);
+                let pos = rng.below(words.len() + 1);
+                words.insert(pos, json!({"k": "gopt", "o": "xdev"}));
+                // keep the expression well-formed: a primary next to a primary is a conjunction
+            }
         }
         v["words"] = json!(words);
         v
